@@ -2376,3 +2376,16 @@ fire("c01-legacy-hash-plain-store", ["C01"], PR,
      "            object.__setattr__(self, \"_hash_value\", self.get_hash())\n",
      "            self._hash_value = self.get_hash()\n",
      "O/legacy/__hash__/cache-store-works-when-frozen")
+
+fire("c15-product-second-factor-not-refused", ["C15"], COE,
+     "                    if (idx_of_child_with_vars is not None\n"
+     "                            and idx_of_child_with_vars != i):\n",
+     "                    if (idx_of_child_with_vars is not None\n"
+     "                            and idx_of_child_with_vars > i):\n",
+     "P/CoefficientCollector/map_product/nonlinear-raises")
+fire("c15-product-skips-later-factors", ["C15"], COE,
+     "            if i != idx_of_child_with_vars:\n"
+     "                assert len(child_coeffs) == 1\n",
+     "            if idx_of_child_with_vars is None or i < idx_of_child_with_vars:\n"
+     "                assert len(child_coeffs) == 1\n",
+     "K/CoefficientCollector/map_product/all-factors")
